@@ -252,6 +252,110 @@ theorem storeSimple_mapping_ne (E : Env) (h : Hist) (cache : List ClassId) (oid 
     storeSimple E .mapping h cache oid serial data = { out := none, cache := cache, calls := [] } := by
   simp [storeSimple, hc, hne]
 
+
+
+theorem loadSerialK_file (hist base : Hist) : loadSerialK (.simple .file) hist base = loadSerialFile hist := by
+  funext o ser; rfl
+
+theorem storeK_simple_eq (E : Env) (s : Sys) (k : Simple) (hk : s.kind = .simple k)
+    (hs : Sorted s.view) (oid : Oid) (serial : Tid) (data : Record) :
+    storeK E s oid serial data = storeSpec E s oid serial data := by
+  have hcur : curS k s.hist oid = currentTid s.view oid := by
+    have := curK_eq_view (k := s.kind) (hist := s.hist) (base := s.base) hs oid
+    rw [hk] at this
+    simpa [curK, Sys.view, hk] using this
+  cases s with
+  | mk kind base hist lock tid staged checked resolved innerResolved voted cache =>
+  simp only at hk hcur
+  subst hk
+  simp only [storeK, storeSpec]
+  cases hc : currentTid (Sys.view _) oid with
+  | none =>
+    rw [hc] at hcur
+    rw [storeSimple_none E k hist cache oid serial data hcur]
+    rfl
+  | some ct =>
+    rw [hc] at hcur
+    simp only
+    by_cases hne : serial = ct
+    · subst hne
+      rw [storeSimple_eq E k hist cache oid serial data hcur]
+      simp [acceptRes]
+    · simp only [hne, if_false]
+      cases k with
+      | mapping =>
+        rw [storeSimple_mapping_ne E hist cache oid serial ct data hcur hne]
+        simp [Kind.resolves]
+      | file =>
+        simp only [storeSimple, hcur, hne, if_false, Kind.resolves, if_true, loadSerialK_file]
+        generalize tryToResolve E (loadSerialFile hist) cache oid ct serial data none = T
+        cases T.out <;> rfl
+
+
+
+theorem storeSimple_inner (E : Env) (k : Simple) (h : Hist) (cache : List ClassId) (oid : Oid)
+    (ser : Tid) (d : Record) (hc : curS k h oid = none ∨ curS k h oid = some ser) :
+    storeSimple E k h cache oid ser d = { out := some (d, false), cache := cache, calls := [] } := by
+  rcases hc with hc | hc
+  · exact storeSimple_none E k h cache oid ser d hc
+  · exact storeSimple_eq E k h cache oid ser d hc
+
+theorem storeK_demo_eq (E : Env) (s : Sys) (kc kb : Simple) (hk : s.kind = .demo kc kb)
+    (hs : Sorted s.view) (hin : s.innerResolved = []) (oid : Oid) (serial : Tid) (data : Record) :
+    storeK E s oid serial data = storeSpec E s oid serial data := by
+  have hcur : curK (.demo kc kb) s.hist s.base oid = currentTid s.view oid := by
+    have := curK_eq_view (k := s.kind) (hist := s.hist) (base := s.base) hs oid
+    rw [hk] at this
+    simpa [Sys.view, hk] using this
+  cases s with
+  | mk kind base hist lock tid staged checked resolved innerResolved voted cache =>
+  simp only at hk hcur hin
+  subst hk hin
+  simp only [storeK, storeSpec]
+  cases hc : currentTid (Sys.view _) oid with
+  | none =>
+    rw [hc] at hcur
+    have hcs : curS kc hist oid = none := by
+      simp only [curK] at hcur
+      cases h1 : curS kc hist oid with
+      | none => rfl
+      | some t => rw [h1] at hcur; cases hcur
+    simp only [hcur, Option.getD_none, if_true]
+    rw [storeSimple_inner E kc hist cache oid serial data (Or.inl hcs)]
+    rfl
+  | some ct =>
+    rw [hc] at hcur
+    have hcs : curS kc hist oid = none ∨ curS kc hist oid = some ct := by
+      simp only [curK] at hcur
+      cases h1 : curS kc hist oid with
+      | none => left; rfl
+      | some t => rw [h1] at hcur; right; exact hcur
+    simp only [hcur, Option.getD_some]
+    by_cases hne : serial = ct
+    · subst hne
+      simp only [if_true]
+      rw [storeSimple_inner E kc hist cache oid serial data hcs]
+      rfl
+    · have hne' : ¬ ct = serial := fun h => hne h.symm
+      simp only [hne, hne', if_false, Kind.resolves, if_true]
+      generalize tryToResolve E (loadSerialK (.demo kc kb) hist base) cache oid ct serial data none = T
+      cases hT : T.out with
+      | error e => rfl
+      | ok rdata =>
+        simp only
+        rw [storeSimple_inner E kc hist T.cache oid ct rdata hcs]
+        simp
+
+
+/-- `store` by the lock holder = `storeSpec`, for every kind, in every state with ordered tids
+    (the inner `changes.store` of a DemoStorage never conflicts and never resolves) -/
+theorem storeK_eq (E : Env) (s : Sys) (hs : Sorted s.view) (hin : s.innerResolved = [])
+    (oid : Oid) (serial : Tid) (data : Record) :
+    storeK E s oid serial data = storeSpec E s oid serial data := by
+  cases hk : s.kind with
+  | simple k => exact storeK_simple_eq E s k hk hs oid serial data
+  | demo kc kb => exact storeK_demo_eq E s kc kb hk hs hin oid serial data
+
 /-! ### basic facts on `step` -/
 
 /-- a call by anybody but the lock holder changes nothing at all -/
